@@ -143,7 +143,10 @@ func c02apis() []c02api {
 			accept:    func(w []byte) (bool, []byte) { var v dAB; return def.Unmarshal(w, &v) == nil, nil }},
 		{name: "Unmarshal-map[string]RawMessage-std", wrap: ident,
 			stdAccept: func(w []byte) bool { var v map[string]json.RawMessage; return json.Unmarshal(w, &v) == nil },
-			accept:    func(w []byte) (bool, []byte) { var v map[string]json.RawMessage; return std.Unmarshal(w, &v) == nil, nil }},
+			accept: func(w []byte) (bool, []byte) {
+				var v map[string]json.RawMessage
+				return std.Unmarshal(w, &v) == nil, nil
+			}},
 		{name: "Unmarshal-[][]interface-default", wrap: ident,
 			stdAccept: func(w []byte) bool { var v [][]interface{}; return json.Unmarshal(w, &v) == nil },
 			accept:    func(w []byte) (bool, []byte) { var v [][]interface{}; return def.Unmarshal(w, &v) == nil, nil }},
@@ -206,16 +209,16 @@ func c02apis() []c02api {
 
 type nopVisitor struct{}
 
-func (nopVisitor) OnNull() error                          { return nil }
-func (nopVisitor) OnBool(bool) error                      { return nil }
-func (nopVisitor) OnString(string) error                  { return nil }
-func (nopVisitor) OnInt64(int64, json.Number) error       { return nil }
-func (nopVisitor) OnFloat64(float64, json.Number) error   { return nil }
-func (nopVisitor) OnObjectBegin(int) error                { return nil }
-func (nopVisitor) OnObjectKey(string) error               { return nil }
-func (nopVisitor) OnObjectEnd() error                     { return nil }
-func (nopVisitor) OnArrayBegin(int) error                 { return nil }
-func (nopVisitor) OnArrayEnd() error                      { return nil }
+func (nopVisitor) OnNull() error                        { return nil }
+func (nopVisitor) OnBool(bool) error                    { return nil }
+func (nopVisitor) OnString(string) error                { return nil }
+func (nopVisitor) OnInt64(int64, json.Number) error     { return nil }
+func (nopVisitor) OnFloat64(float64, json.Number) error { return nil }
+func (nopVisitor) OnObjectBegin(int) error              { return nil }
+func (nopVisitor) OnObjectKey(string) error             { return nil }
+func (nopVisitor) OnObjectEnd() error                   { return nil }
+func (nopVisitor) OnArrayBegin(int) error               { return nil }
+func (nopVisitor) OnArrayEnd() error                    { return nil }
 
 // c02classify computes the finding key of a violation from the witness.
 func c02classify(api string, kind string, w []byte, judged []byte) string {
@@ -558,17 +561,17 @@ func c02strata(thorough bool) [][]byte {
 	for L := 0; L <= maxL; L++ {
 		f := strings.Repeat("a", L)
 		add(`"` + f + `"`)
-		add(`"` + f)            // closer deleted
-		add(`"` + f + `""`)     // closer doubled
-		add(`"` + f + `"x`)     // stray byte
-		add(`"` + f + `\`)      // dangling backslash
-		add(`"` + f + `\"`)     // escaped quote, unterminated
-		add(`["` + f + `"]`)    //
-		add(`["` + f + `]`)     // quote missing inside array
-		add(`{"` + f + `":1}`)  //
-		add(`{"` + f + `:1}`)   //
+		add(`"` + f)             // closer deleted
+		add(`"` + f + `""`)      // closer doubled
+		add(`"` + f + `"x`)      // stray byte
+		add(`"` + f + `\`)       // dangling backslash
+		add(`"` + f + `\"`)      // escaped quote, unterminated
+		add(`["` + f + `"]`)     //
+		add(`["` + f + `]`)      // quote missing inside array
+		add(`{"` + f + `":1}`)   //
+		add(`{"` + f + `:1}`)    //
 		add(`{"k":"` + f + `"}`) //
-		add(`{"k":"` + f + `}`) //
+		add(`{"k":"` + f + `}`)  //
 		d := strings.Repeat("7", L)
 		if L > 0 {
 			add(d)
